@@ -9,7 +9,7 @@ from montepy.utilities import *
 
 
 def _ensure_positive(self, value):
-    if value < 0:
+    if value is not None and value < 0:
         raise ValueError(f"Volume must be positive. {value} given.")
 
 
